@@ -13,6 +13,7 @@
 package c19
 
 import (
+	"errors"
 	"fmt"
 	"os"
 	"path/filepath"
@@ -307,6 +308,12 @@ func (h *harness) one(e *entry, st *stats, in input) {
 	}
 	st.mu.Unlock()
 	fingerprint := e.name + "|" + strings.Join(in.ops, "+")
+	var hp httpPanic
+	if !o.panicked && !o.timeout && errors.As(o.err, &hp) {
+		// the handler panicked on the server side of the HTTP connection
+		o = outcome{panicked: true, pval: firstLineWith(hp.report, "panic serving"), stack: tailStr(hp.report, 6000)}
+		o.pfunc, o.repo = stackTextSite(hp.report)
+	}
 	switch {
 	case o.panicked:
 		h.reportPanic(e, st, in, o)
@@ -497,6 +504,11 @@ func TestCheck(t *testing.T) {
 		wg.Add(1)
 		go func() { defer wg.Done(); v2Protocol(h) }()
 	}
+	if part("http") {
+		theNode(h) // booted here, not concurrently (configuration travels through the process environment)
+		wg.Add(1)
+		go func() { defer wg.Done(); httpNode(h) }()
+	}
 	for _, e := range entries {
 		if e.serial {
 			continue
@@ -516,9 +528,6 @@ func TestCheck(t *testing.T) {
 			st := h.st(e.name)
 			e.gen(h, e, func(in input) { h.one(e, st, in) })
 		}
-	}
-	if part("http") {
-		httpNode(h)
 	}
 
 	names := make([]string, 0, len(h.stats))
